@@ -765,7 +765,7 @@ Definition sub_receive_from (w : world) (s key : nat) : world * rres :=
   end.
 
 (* one pass of the for loop of receive_from_to_be_removed_connections over
-   to_be_removed.iter().skip(k).enumerate(): result = (received, index_and_key) *)
+   to_be_removed.iter().skip(k).enumerate(), n counted from k: result = (received, index_and_key) *)
 Fixpoint tbr_scan (w : world) (s : nat) (l : list nat) (n : nat) : world * rres * option (nat * nat) :=
   match l with
   | [] => (w, RxNone, None)
@@ -785,14 +785,15 @@ Fixpoint tbr_scan (w : world) (s : nat) (l : list nat) (n : nat) : world * rres 
     end
   end.
 
-(* receive_from_to_be_removed_connections: note that `index` is the position AFTER the skip,
-   and is used un-offset both for to_be_removed_connections.remove(index) and as the next
-   indices_to_skip (candidate F1).  fuel: every round but the last removes one list element. *)
+(* receive_from_to_be_removed_connections: index = indices_to_skip + n, the absolute position in
+   to_be_removed_connections (fix: 81d4165; before it the position after the skip was used, candidate
+   F1), used for to_be_removed_connections.remove(index) and as the next indices_to_skip.
+   fuel: every round but the last removes one list element. *)
 Fixpoint tbr_loop (fuel : nat) (w : world) (s : nat) (skip : nat) : res (world * rres) :=
   match fuel with
   | O => Val (w, RxNone)
   | S f =>
-    let '(w1, r, ik) := tbr_scan w s (skipn skip (s_tbr (gets w s))) 0 in
+    let '(w1, r, ik) := tbr_scan w s (skipn skip (s_tbr (gets w s))) skip in
     match ik with
     | Some (index, key) =>
       tbr_loop f (sub_storage_remove (tbr_remove w1 s index) s key) s index
